@@ -29,15 +29,22 @@ type Conflict struct {
 func GenModSet(rng *rand.Rand, nConflicts int) *ModSet {
 	src := GenModel(rng, GenOpts{DSLValid: true, Conds: true, MaxDepth: 1 + rng.Intn(3), MaxTypes: 5, MaxRels: 4})
 	nf := 1 + rng.Intn(4)
+	if rng.Intn(12) == 0 {
+		nf = 13 + rng.Intn(4) // more than a dozen files
+	}
 	ms := &ModSet{RelModule: map[string]string{}}
 	modNames := []string{"core", "wiki", "billing", "a-b", "type"}
 	for i := 0; i < nf; i++ {
 		mod := modNames[rng.Intn(len(modNames))]
 		if rng.Intn(2) == 0 {
-			mod = modNames[i]
+			mod = modNames[i%len(modNames)]
 		}
 		ms.Files = append(ms.Files, &Model{Module: mod})
-		ms.Names = append(ms.Names, fmt.Sprintf("%s/f%d.fga", mod, i))
+		name := fmt.Sprintf("%s/f%d.fga", mod, i)
+		if rng.Intn(10) == 0 {
+			name = fmt.Sprintf("%s/f%d%%s%%d.fga", mod, i) // a '%' in a file name: text, never a format string
+		}
+		ms.Names = append(ms.Names, name)
 	}
 	if rng.Intn(6) == 0 { // shuffle names so that name order != list order
 		rng.Shuffle(len(ms.Names), func(i, j int) { ms.Names[i], ms.Names[j] = ms.Names[j], ms.Names[i] })
